@@ -9,6 +9,8 @@ CONSTANTS
   DelAmts = {1000}
   MinSelf = 100
   MinSpec = 1000
+  MinSpecHigh = 2000
+  HighChains = {"c2"}
   Fixed = FALSE
   MaxOps = 5
   GenHist = FALSE
